@@ -386,6 +386,29 @@ func main() {
 				if rng.Bool() {
 					m.Subject = &other
 				}
+				if rng.Intn(3) == 0 {
+					// ... or its subject shares nothing but the DIGEST with the artifact it lists as layer (another media type):
+					// it is a predecessor of the artifact in the graph and a signature manifest of that other descriptor only
+					fake := sub
+					fake.MediaType = []string{"application/vnd.docker.distribution.manifest.v2+json", ocispec.MediaTypeImageIndex}[rng.Intn(2)]
+					m.Subject = nil
+					mm := m
+					mm.Subject = &fake
+					ok := func() (ok bool) {
+						defer func() {
+							if recover() != nil {
+								ok = false
+							}
+						}()
+						d := pushJSON(ctx, store, ocispec.MediaTypeImageManifest, mm)
+						nearMiss = append(nearMiss, fake)
+						addModel(fake, pushed{Kind: "weird", Man: d})
+						return true
+					}()
+					trace = append(trace, fmt.Sprintf("notation-typed manifest with subject#%d as LAYER whose subject shares only the digest with it (pushed=%v)", si, ok))
+					r.Event("predecessors-whose-subject-shares-only-the-digest")
+					break
+				}
 				d := pushJSON(ctx, store, ocispec.MediaTypeImageManifest, m)
 				trace = append(trace, fmt.Sprintf("notation-typed manifest with subject#%d as LAYER, subject=%v", si, m.Subject != nil))
 				if m.Subject != nil { // it is a (weird) signature manifest of `other` with the subject manifest as its envelope blob
@@ -472,6 +495,13 @@ func main() {
 						layers = append(layers, bd)
 						bds = append(bds, bd.Digest)
 					}
+					if ph := rng.Intn(4); ph < 2 {
+						// one of the two layers is the empty placeholder of OCI 1.1 (`{}`): two layers are two layers
+						empty, _ := oras.PushBytes(ctx, store, ocispec.MediaTypeEmptyJSON, []byte("{}"))
+						layers[ph] = empty
+						bds = []digest.Digest{layers[1-ph].Digest}
+						r.Event("two-layers-one-of-them-the-empty-placeholder")
+					}
 				} else {
 					layers = []ocispec.Descriptor{}
 				}
@@ -511,6 +541,23 @@ func main() {
 				} else {
 					addModel(sub, pushed{Kind: "hostile-declared-blob-size", Man: d, Refuse: true, BlobDigest: []digest.Digest{real.Digest}})
 				}
+			case kind == 11 && rng.Intn(3) == 0:
+				// a one-layer signature manifest of another producer whose layer descriptor embeds a `data` member (image-spec
+				// 1.1) - of the declared length, but NOT the content stored under the layer's digest: the envelope is the stored blob
+				blob := []byte(fmt.Sprint("envelope stored under the digest of the layer ", iter, op))
+				bd, _ := oras.PushBytes(ctx, store, lib.MediaJWS, blob)
+				forged := bytes.Repeat([]byte("F"), len(blob))
+				if rng.Bool() {
+					forged = append([]byte(nil), blob...) // (or, honestly, the very bytes)
+				}
+				withData := bd
+				withData.Data = forged
+				m := ocispec.Manifest{MediaType: ocispec.MediaTypeImageManifest, Config: notationCfg, Layers: []ocispec.Descriptor{withData}, Subject: &sub, Annotations: map[string]string{"data": fmt.Sprint(op)}}
+				m.SchemaVersion = 2
+				d := pushJSON(ctx, store, ocispec.MediaTypeImageManifest, m)
+				trace = append(trace, fmt.Sprintf("one-layer signature manifest whose layer embeds a data member for subject#%d", si))
+				addModel(sub, pushed{Kind: "signature", MT: lib.MediaJWS, Blob: blob, Ann: map[string]string{"data": fmt.Sprint(op)}, Man: d})
+				r.Event("one-layer-with-embedded-data")
 			case kind == 11 && rng.Bool():
 				// a hand-built signature manifest (exactly one layer) that also carries a member this format does not define
 				// ("blobs", as the legacy format calls it): unknown members are ignored, the one layer is the envelope
